@@ -157,11 +157,11 @@ FUNCTIONS.update({
   'LoadBalancerSink._OpenImpl': dict(
     cls='HeapBalancerSink', returns='bool?', aspect='mem', conc='MembersLoading', guar=['Members'],
     locals={'server_set': 'list[SetMember]'},
-    requires=['allocated(self.__init_done)', 'not self.__init_done.flag', 'self._size == 0'],
+    requires=['allocated(self.__init_done)', 'not self.__init_done.flag', 'self._size == 0', 'self.__open_ar is not None and allocated(self.__open_ar)'],
     ensures=['implies(result is not None, self.__init_done.flag)'],
     raises={'ValueError': dict()},
     modifies=_MEM_MOD + ['Event.flag', 'LoadBalancerSink._servers', 'LoadBalancerSink._state', 'LoadBalancerSink._open_greenlet', 'HeapBalancerSink._open',
-                         'list[SetMember]', 'Channel.g_opens', 'HeapBalancerSink._downq', 'Node.g_rank'],
+                         'list[AsyncResult]', 'list[int]', 'AsyncResult.g_sets', 'AsyncResult.value', 'AsyncResult.exception', 'AsyncResult.g_ready', 'AsyncResult.g_value', 'AsyncResult.g_failed', 'list[SetMember]', 'Channel.g_opens', 'HeapBalancerSink._downq', 'Node.g_rank'],
     allocates='any',
     yields=[{'at': 'gevent.sleep(5)'}, {'at': 'self._server_set_provider.Initialize('}, {'at': 'self._server_set_provider.GetServers()'}],
     loops={
@@ -178,11 +178,22 @@ FUNCTIONS.update({
     ],
     props=['C05'],
   ),
+  # after the initial load: mark the balancer open and start opening every member; the open result completes when the
+  # first member is open (or at once when there is no member).  No membership state is touched.
   'HeapBalancerSink._OpenInitialChannels': dict(
-    file='scales/loadbalancer/heap.py', cls='HeapBalancerSink', requires=[], ensures=['self._open'],
-    modifies=['HeapBalancerSink._open', 'Channel.g_opens'], allocates=True, trusted=True,
-    notes='sets _open and starts opening every member channel (WhenAny over a list comprehension of _OpenNode): assumed to change no membership state',
+    file='scales/loadbalancer/heap.py', cls='HeapBalancerSink',
+    requires=['HI_shape(self)', 'hwf(self._heap)', 'self.__open_ar is not None and allocated(self.__open_ar)'],
+    ensures=['self._open'],
+    modifies=['HeapBalancerSink._open', 'Channel.g_opens', 'list[AsyncResult]', 'list[int]', 'AsyncResult.g_sets', 'AsyncResult.value', 'AsyncResult.exception',
+              'AsyncResult.g_ready', 'AsyncResult.g_value', 'AsyncResult.g_failed', '$cls'],
+    allocates=True,
+    comps={'[self._OpenNode(n) for n in self._heap[1:]]': dict(
+      elem='AsyncResult',
+      invariant=['allocated(_acc)', 'len(_acc) == _i900', 'forall(k, 0, len(_acc), allocated(_acc[k]))', 'self._open', 'HI_shape(self)', 'hwf(self._heap)'],
+      modifies=['Channel.g_opens', 'list[AsyncResult]'], allocates=True)},
+    props=['C05', 'C06'],
   ),
+
 })
 
 EXTERNS.update({
